@@ -14,7 +14,7 @@ from .m_num import is_floatlike, is_intlike, is_num, float_ne_zero, neg  # noqa:
 from .m_str import format_value, str_concat  # noqa: F401
 from .sym import (
     FALSE, TRUE, And, Opaque, Or, PathAbort, PyRaise, SBool, SBound, SDt, SFloat, SFunc,
-    SInt, SMatch, SObj, SSet, SStr, SSuper, STd, Unsupported, bool_term, char_term,
+    SInt, SMatch, SObj, SSet, SStr, SSuper, STd, SUnb, Unsupported, bool_term, char_term,
     int_term, is_str, is_symbolic, mk_bool, mk_int, mk_str, str_chars, str_eq_term,
 )
 
@@ -90,6 +90,11 @@ def eq(it, a, b):
             pass  # may define __eq__
         else:
             return False
+    if isinstance(a, SUnb) or isinstance(b, SUnb):
+        o = b if isinstance(a, SUnb) else a
+        if is_str(o) or isinstance(o, SUnb):
+            return mk_bool(z3.Bool(it.ex.fresh_name("unb_eq")))
+        return False
     if is_str(a) and is_str(b):
         return mk_bool_v(str_eq_term(a, b))
     if is_num(a) and is_num(b):
@@ -320,6 +325,8 @@ def binop(it, op, a, b, inplace=False):
             return Opaque("str")
     if isinstance(op, ast.Mult):
         for x, y in ((a, b), (b, a)):
+            if is_str(x) and isinstance(y, (SInt, SBool)):
+                return SUnb("repeated")  # a string of symbolic length: content not tracked
             if (is_str(x) or isinstance(x, (list, tuple))) and isinstance(y, int):
                 if is_str(x):
                     return mk_str(list(str_chars(x)) * y)
@@ -409,6 +416,14 @@ def _slice_ok(sl):
 
 
 def getitem(it, obj, idx):
+    if isinstance(obj, SUnb):
+        if isinstance(idx, slice):
+            _slice_ok(idx)
+            return SUnb(obj.name + "_slice")
+        # a single index may be out of range
+        if it.decide(z3.Bool(it.ex.fresh_name("unb_index_ok"))):
+            return SUnb(obj.name + "_char")
+        it.py_raise(IndexError, "string index out of range")
     if is_str(obj):
         cs = str_chars(obj)
         if isinstance(idx, slice):
@@ -503,8 +518,8 @@ def dict_set(it, d, key, value):
                 if it.truth(e):
                     d[k] = value
                     return
-        if isinstance(key, (SStr, SInt)):
-            raise Unsupported("dict store with symbolic key")
+        # on this path the key differs from every existing key it could equal: a new entry
+        # (the symbolic value object itself is the dict key; look-ups compare symbolically)
     try:
         d[key] = value
     except TypeError as e:
@@ -576,7 +591,7 @@ def iterate(it, v):
 
 # ================================================================== str / repr
 def str_(it, v):
-    if isinstance(v, (str, SStr)):
+    if isinstance(v, (str, SStr, SUnb)):
         return v
     if isinstance(v, Opaque):
         return Opaque("str")
@@ -616,6 +631,8 @@ def str_(it, v):
 
 
 def repr_(it, v):
+    if isinstance(v, SUnb):
+        return Opaque("str")
     if isinstance(v, SStr):
         # exact when no character needs escaping and there is no quote
         for c in v.chars:
@@ -687,7 +704,7 @@ def ctx_exit(it, cm, exc):
 
 # ================================================================== attribute access on symbolic primitives
 def symbolic_attr(it, obj, name):
-    if isinstance(obj, SStr):
+    if isinstance(obj, (SStr, SUnb)):
         d = getattr(str, name, None)
         if d is None:
             it.py_raise(AttributeError, f"'str' object has no attribute '{name}'")
